@@ -162,6 +162,24 @@ CHECKS = {
          "messages up to 4095 bytes, real loopback/unix sockets cross-checking the in-memory fakes.",
          "wire format differences are drift, not violations. " + TRUST,
          "DESIGN.md section 4, C19"),
+ "C13": ("TLA+ contract of the ISO 14229-1 default response chain (VEcuContract: Chain, suppression, state update) and a design "
+         "model of UDSServer.respond/update_state (VEcu.tla) model-checked by TLC over all 2^9 behaviour-switch subsets; TLC "
+         "validates every exchange of the real virtual ECU and TLC transitions are replayed into it",
+         "Exhaustive model checking of small models x all switch subsets x structural request classes x histories <= 3 with "
+         "negative controls; 164k (thorough 1.3M) real exchanges: one model/session exhaustive over all requests with 0-1 "
+         "payload bytes, all 512 switch subsets, all sub-function bytes, structured valid requests; 25k (214k) TLC transitions "
+         "replayed.",
+         "service-specific payloads are unconstrained; 'parsable' is taken from gallia's request codec (C01); the 10 s inactivity "
+         "reset is kept out of play by patching time in the harness. " + TRUST,
+         "DESIGN.md section 4, C13"),
+ "C14": ("Same VEcu specification (invariants A1-A3: never raises, session stays offered, reply well formed and accepted); TLC "
+         "validates exchanges of the real virtual ECU through handle_request, the real UDSClient.request() and the real "
+         "handle_client loop over in-memory tcp-lines streams",
+         "38k (thorough 1.1M) exchanges: random byte strings of length 1..64, every service id x 0..8 payload bytes, structured "
+         "valid requests incl. multi-identifier and suppress-bit variants, 4095/4096-byte requests, for seeds x randomness "
+         "parameters; the client's own parse_pdu verdict is recorded per exchange and judged by TLC.",
+         "A3 uses the real client's verdict plus a structural well-formedness check in TLA+. " + TRUST,
+         "DESIGN.md section 4, C14"),
 }
 PENDING = {}
 
